@@ -136,6 +136,8 @@ def ops_reduce(rng):
     o.append("scalarw %s ; %s ; %s" % (vec(a), vec(b), vec(w)))
     o.append("norm " + vec(one(rng)))
     a, w = pair(rng, None, "pos")
+    if rng.random() < 0.15:
+        w = [rng.choice([0.0, -1.0, 1.0, rng.uniform(-2, 2)]) for _ in w]
     o.append("normw %s ; %s" % (vec(a), vec(w)))
     a, b = pair(rng, ["ints", "reals", "mag"])
     o.append("cos %s ; %s" % (vec(a), vec(b)))
@@ -249,6 +251,18 @@ def ops_log(rng):
         m = n if rng.random() < 0.85 else length(rng)
         w = values(rng, m, rng.choice(["pos", "pos", "unit", "reals"]))
         o.append("%s %s ; %s" % (name, vec(logvalues(rng, n)), vec(w)))
+    # extreme weights (ratios up to 1e600): the leading term v_i + ln w_i need not be at max(v)
+    for name in ("lsew", "sumexpw"):
+        n = rng.randint(1, 8)
+        w = [10.0 ** rng.uniform(-300, 300) * (1.0 if rng.random() < 0.9 else rng.choice([0.0, -1.0])) for _ in range(n)]
+        r = rng.random()
+        if r < 0.5:
+            v = [rng.uniform(-700, 700) for _ in range(n)]
+        elif r < 0.8:          # anti-correlated with the weights: the weighted terms are comparable
+            v = [-math.log(abs(x)) + rng.uniform(-30, 30) if x != 0.0 else rng.uniform(-700, 700) for x in w]
+        else:
+            v = logvalues(rng, n)
+        o.append("%s %s ; %s" % (name, vec(v), vec(w)))
     c = rng.choice([1.0, -5.5, 700.0, -1e5, 1e300, rng.uniform(-1000, 1000)])
     o.append("lseshift %s ; %s" % (hx(c), vec(logvalues(rng, length(rng)))))
     specials = [-INF, INF, 0.0, 1.0, -745.2, 709.8, 1e300, -1e300]
@@ -276,6 +290,9 @@ def ops_fdr(rng):
 # round 2: every overload, every combination of the boolean options, lists of 0..5 vectors
 
 def weights(rng, n):
+    k = rng.random()
+    if k < 0.12:                                            # zero and negative weights ("all weight vectors")
+        return [rng.choice([0.0, 0.0, -1.0, 1.0, rng.uniform(-2, 2), rng.uniform(0, 2)]) for _ in range(n)]
     k = rng.random()
     if k < 0.35:
         return values(rng, n, "pos")
